@@ -55,6 +55,39 @@ theorem C20_hash_ignores (a : Rec) (ttl : Nat) (created : Ms) (unique : Bool) :
   cases ard <;>
     simp [Rec.hashKey, RData.kind, Kind.hashFields, addressHash, hinfoHash, pointerHash, textHash, serviceHash, nsecHash, Rec.field]
 
+/-! ### the cache-flush / QU bit of the *constructor's* class argument
+
+The bit is kept out of identity by `DNSEntry._set_class` alone (generated leaves `class_of`,
+`unique_of`); `Rec.normCtor` is that step.  The number 32768 = 2¹⁵ below is the property's
+("the top bit of the 16-bit class"), not read from the generated file. -/
+
+theorem class_of_eq_mod (c : Nat) : Gen.Dns.class_of c = c % 32768 := by
+  have := Nat.and_two_pow_sub_one_eq_mod c 15
+  simpa [Gen.Dns.class_of] using this
+
+/-- records built from raw classes are the same record iff kind, owner name, type, the class
+**modulo the top bit**, and rdata agree -/
+theorem C20_ctor_eq_iff (a b : Rec) :
+    a.normCtor.beq lower b.normCtor = true ↔
+      a.rdata.kind = b.rdata.kind ∧ lower a.name = lower b.name ∧ a.type = b.type ∧
+        a.class_ % 32768 = b.class_ % 32768 ∧ a.rdata.ident lower = b.rdata.ident lower := by
+  rw [C20_eq_iff]
+  simp only [Rec.normCtor, Rec.specIdent, class_of_eq_mod, Prod.mk.injEq]
+
+/-- **the cache-flush bit never affects identity**: setting the top bit of the class a record is built with
+changes neither equality nor the hash -/
+theorem C20_flush_bit_ignored (a b : Rec) :
+    ({ a with class_ := a.class_ + 32768 } : Rec).normCtor.beq lower b.normCtor = a.normCtor.beq lower b.normCtor
+    ∧ ({ a with class_ := a.class_ + 32768 } : Rec).normCtor.hashKey lower = a.normCtor.hashKey lower := by
+  have hm : (a.class_ + 32768) % 32768 = a.class_ % 32768 := by omega
+  constructor
+  · rw [Bool.eq_iff_iff, C20_ctor_eq_iff, C20_ctor_eq_iff]; simp only [hm]
+  · have e : ({ a with class_ := a.class_ + 32768 } : Rec).normCtor =
+        { a.normCtor with unique := Gen.Dns.unique_of (a.class_ + 32768) } := by
+      simp only [Rec.normCtor, class_of_eq_mod, hm]
+    rw [e]
+    exact C20_hash_ignores lower a.normCtor a.normCtor.ttl a.normCtor.created (Gen.Dns.unique_of (a.class_ + 32768))
+
 /-- identity is an equivalence relation (what `dict`/`set` need) -/
 theorem C20_equivalence :
     (∀ a : Rec, a.beq lower a = true)
@@ -73,17 +106,67 @@ theorem C20_question (p q : Question) :
 theorem C20_question_hash (p q : Question) (h : p.beq lower q = true) : p.hashKey lower = q.hashKey lower := by
   simp_all [Question.beq, Question.hashKey, questionEq, questionHash, Question.field]
 
-/-- Known-answer suppression (`DNSRRSet.suppresses`) looks the record up by identity:
-with the dict modelled as "first stored record equal to the probe, last write wins"
-the answer depends only on identity and the two TTLs. -/
-def rrsetLookup (rs : List Rec) (r : Rec) : Option Rec :=
-  -- `{record: record for record in records}`: the value kept for a key is the *last* equal record
-  rs.reverse.find? (fun o => o.beq lower r)
+/-- the QU bit of a question likewise -/
+theorem C20_question_ctor (p q : Question) :
+    p.normCtor.beq lower q.normCtor = true ↔
+      lower p.name = lower q.name ∧ p.type = q.type ∧ p.class_ % 32768 = q.class_ % 32768 := by
+  rw [C20_question]
+  simp only [Question.normCtor, Question.specIdent, class_of_eq_mod, Prod.mk.injEq]
 
-def rrsetSuppresses (rs : List Rec) (r : Rec) : Bool :=
-  match rrsetLookup lower rs r with
-  | none => false
-  | some o => Gen.Dns.rrset_suppresses_ttl r.ttl o.ttl
+/-! Known-answer suppression (`DNSRRSet.suppresses`, model `rrsetLookup` / `rrsetSuppresses` in
+`Model/Dns`, replayed against the real class by the driver command `c20s`) looks the record up by
+identity: the answer depends only on identity and the two TTLs. -/
+
+/-- which stored record the look-up finds: the **last** one identical to the probe -/
+theorem C20_rrset_lookup (rs : List Rec) (r o : Rec) :
+    rrsetLookup lower rs r = some o ↔
+      ∃ pre post, rs = pre ++ o :: post ∧ o.beq lower r = true ∧ ∀ x ∈ post, x.beq lower r = false := by
+  unfold rrsetLookup
+  rw [List.find?_eq_some_iff_append]
+  constructor
+  · rintro ⟨ho, as, bs, hrev, hno⟩
+    refine ⟨bs.reverse, as.reverse, ?_, ho, ?_⟩
+    · have := congrArg List.reverse hrev
+      simpa using this
+    · intro x hx
+      have := hno x (by simpa using hx)
+      simpa using this
+  · rintro ⟨pre, post, rfl, ho, hno⟩
+    refine ⟨ho, post.reverse, pre.reverse, by simp, ?_⟩
+    intro x hx
+    have := hno x (by simpa using hx)
+    simp [this]
+
+/-- suppression, exactly: some stored record is the same record, and the **last** such one has more
+than half the probe's TTL -/
+theorem C20_rrset_iff (rs : List Rec) (r : Rec) :
+    rrsetSuppresses lower rs r = true ↔
+      ∃ pre o post, rs = pre ++ o :: post ∧ o.rdata.kind = r.rdata.kind ∧ o.specIdent lower = r.specIdent lower ∧
+        (∀ x ∈ post, ¬ (x.rdata.kind = r.rdata.kind ∧ x.specIdent lower = r.specIdent lower)) ∧ r.ttl < 2 * o.ttl := by
+  unfold rrsetSuppresses
+  constructor
+  · intro h
+    cases hl : rrsetLookup lower rs r with
+    | none => simp [hl] at h
+    | some o =>
+      simp only [hl] at h
+      obtain ⟨pre, post, hrs, ho, hno⟩ := (C20_rrset_lookup lower rs r o).mp hl
+      rw [C20_eq_iff] at ho
+      refine ⟨pre, o, post, hrs, ho.1, ho.2, ?_, ?_⟩
+      · intro x hx hxx
+        have := hno x hx
+        rw [Bool.eq_false_iff, Ne, C20_eq_iff] at this
+        exact this hxx
+      · simp [Gen.Dns.rrset_suppresses_ttl] at h; omega
+  · rintro ⟨pre, o, post, hrs, hk, hs, hno, httl⟩
+    have hl : rrsetLookup lower rs r = some o := by
+      rw [C20_rrset_lookup]
+      refine ⟨pre, post, hrs, (C20_eq_iff lower o r).mpr ⟨hk, hs⟩, ?_⟩
+      intro x hx
+      rw [Bool.eq_false_iff, Ne, C20_eq_iff]
+      exact hno x hx
+    simp only [hl, Gen.Dns.rrset_suppresses_ttl]
+    simp; omega
 
 theorem C20_rrset (rs : List Rec) (r : Rec) :
     rrsetSuppresses lower rs r = true →
@@ -123,5 +206,27 @@ example :
     (⟨"foo._http._tcp.local.", 33, 1, true, 120, 5, .srv 0 0 80 "host.local."⟩ : Rec).beq id
       ⟨"foo._http._tcp.local.", 33, 1, true, 120, 5, .srv 0 0 81 "host.local."⟩ = false := by
   rw [Bool.eq_false_iff, Ne, C20_eq_iff]; simp [Rec.specIdent, RData.ident]
+
+/-- the flush bit in the constructor's class does not separate records (class 1 vs 0x8001), another class does -/
+example :
+    (⟨"a.local.", 16, 1, false, 0, 0, .txt []⟩ : Rec).normCtor.beq id (⟨"a.local.", 16, 32769, false, 5, 9, .txt []⟩ : Rec).normCtor = true :=
+  (C20_ctor_eq_iff id _ _).mpr ⟨rfl, rfl, rfl, by decide, rfl⟩
+example :
+    (⟨"a.local.", 16, 1, false, 0, 0, .txt []⟩ : Rec).normCtor.beq id (⟨"a.local.", 16, 257, false, 0, 0, .txt []⟩ : Rec).normCtor = false := by
+  rw [Bool.eq_false_iff, Ne, C20_ctor_eq_iff]; decide
+
+/-- suppression uses the *last* identical stored record: TTL 10 then TTL 100 suppresses a probe of TTL 120, the other
+order does not -/
+example :
+    rrsetSuppresses id [⟨"a.local.", 16, 1, false, 10, 0, .txt []⟩, ⟨"a.local.", 16, 1, true, 100, 0, .txt []⟩]
+      ⟨"a.local.", 16, 1, false, 120, 0, .txt []⟩ = true := by
+  rw [C20_rrset_iff]
+  exact ⟨[_], _, [], rfl, rfl, rfl, by simp, by decide⟩
+example :
+    rrsetSuppresses id [⟨"a.local.", 16, 1, true, 100, 0, .txt []⟩, ⟨"a.local.", 16, 1, false, 10, 0, .txt []⟩]
+      ⟨"a.local.", 16, 1, false, 120, 0, .txt []⟩ = false := by
+  have hb : (⟨"a.local.", 16, 1, false, 10, 0, .txt []⟩ : Rec).beq id ⟨"a.local.", 16, 1, false, 120, 0, .txt []⟩ = true :=
+    (C20_eq_iff id _ _).mpr ⟨rfl, rfl⟩
+  simp [rrsetSuppresses, rrsetLookup, List.find?, hb, Gen.Dns.rrset_suppresses_ttl]
 
 end Zc
